@@ -240,9 +240,7 @@ func runReadCfg(c Case, cfg vrt.Config) *vrt.Exec {
 	if x.Diverged != "" {
 		h.Fatal("diverged: %s", x.Diverged)
 	}
-	if c.Poll && polls > 3*readTimeout {
-		gotErr = "" // polled for three read timeouts without a package or an error
-	}
+	pollsExhausted := c.Poll && polls > 3*readTimeout
 	// position class
 	full := 0
 	off := 0
@@ -281,6 +279,13 @@ func runReadCfg(c Case, cfg vrt.Config) *vrt.Exec {
 	if c.Prev != "" {
 		ctxt = "after the complete response " + c.Prev + ", " + ctxt
 	}
+	if x.Failure != nil && x.Failure.Kind == "steps" && x.Now <= time.Duration(readTimeout)*time.Second {
+		// the step budget ran out before the read timeout had passed in virtual time (a reader that polls
+		// a dead transport every few hundred microseconds takes hundreds of thousands of steps to get
+		// there): nothing is decided for this case, the run is not exhaustive
+		h.Cap(fmt.Sprintf("%s offset %d %s: step budget exhausted at %v of virtual time, before the read timeout", c.Resp, c.Offset, c.Fail, x.Now))
+		return x
+	}
 	if o.Failure != "" {
 		kind := strings.SplitN(o.Failure, ":", 2)[0]
 		report("C14|"+kind+"|"+cls, fmt.Sprintf("%s: %s; received %v", ctxt, o.Failure, o.Descs()), c)
@@ -315,6 +320,13 @@ func runReadCfg(c Case, cfg vrt.Config) *vrt.Exec {
 	must := b.after[full]
 	if len(got) < len(must) {
 		report("C14|prefix-too-short|"+cls, fmt.Sprintf("%s: received only %d packages %v before the error (%s); the %d completely received packets contain %v", ctxt, len(got), got, gotErr, full, must), c)
+		return x
+	}
+	if pollsExhausted {
+		// every poll took the "nothing ready" case of the non-waiting receive although something was
+		// queued: possible under this one schedule (a select among ready cases), impossible forever
+		// under a fair choice - the schedule is inconclusive for latency, the prefix was checked above
+		h.Outcome("polling-consumer-starved-by-the-schedule")
 		return x
 	}
 	if gotErr == "" {
